@@ -1,2 +1,99 @@
-/- Property theorems for C13 (placeholder until the proofs land). -/
+/-
+  Avt.Props.C13 — scrollback retention is bounded by the configured limit.
+
+  From the buffer-invariant clause `trim_needed ∨ scrollback ≤ hard` (`Buffer.gc` clears `trim_needed`
+  and trims to `soft ≤ hard`), and the terminal-invariant clause tying the buffers' limits to
+  `scrollback_limit` (primary) resp. `Some(0)` (alternate).  Hypotheses that remain: `ResizeOK`,
+  `ParserOK` (see Props/C02.lean).
+-/
+import Avt.Lemmas.InvVt
 import Avt.Spec.C13
+
+namespace Avt.Props.C13
+open Avt Avt.Spec.C13
+
+/-- in a state satisfying the invariant whose active buffer has been trimmed (`trim_needed = false`,
+    the state every `feed_str`/`resize` call returns in): `lines()` has at most `rows + L + ⌊L/10⌋`
+    entries, exactly `rows` when `L = 0`, and exactly `rows` on the alternate screen -/
+theorem C13_bound {v : Vt} (h : Inv v = true) (ht : v.terminal.buffer.trimNeeded = false) :
+    (∀ L, v.terminal.scrollbackLimit = some L →
+        v.lines.length ≤ v.terminal.rows + L + L / 10 ∧ (L = 0 → v.lines.length = v.terminal.rows))
+      ∧ (v.terminal.activeBufferType = .alternate → v.lines.length = v.terminal.rows) := by
+  obtain ⟨_, hk⟩ := (Vt.inv_iff v).1 h
+  have hlen : v.lines.length = v.terminal.buffer.sb.length + v.terminal.rows := by
+    simp [Vt.lines, Terminal.lines, Buffer.lines, hk.bok.hv, hk.brows]
+  have hsb : ∀ l, v.terminal.buffer.limit = some l → v.terminal.buffer.sb.length ≤ l.hard := by
+    rcases hk.bok.htrim with h1 | h1
+    · rw [ht] at h1; cases h1
+    · exact h1
+  have hdiv : Gen.hardDiv = 10 := rfl
+  have halt : v.terminal.activeBufferType = .alternate → v.lines.length = v.terminal.rows := by
+    intro ha
+    rcases hk.lim with ⟨h1, _⟩ | ⟨_, h2, _⟩
+    · rw [ha] at h1; cases h1
+    · have := hsb _ h2
+      simp only [Buffer.mkLimit, hdiv] at this
+      omega
+  refine ⟨fun L hL => ?_, halt⟩
+  rcases hk.lim with ⟨_, h2⟩ | ⟨h1, _, _⟩
+  · rw [hL] at h2
+    have := hsb _ h2
+    simp only [Buffer.mkLimit, hdiv] at this
+    omega
+  · have := halt h1
+    omega
+
+/-- the same, as the decidable predicate the oracle evaluates on implementation states -/
+theorem C13_boundOK {v : Vt} (h : Inv v = true) (ht : v.terminal.buffer.trimNeeded = false) :
+    boundOK v = true := by
+  obtain ⟨h1, h2⟩ := C13_bound h ht
+  simp only [boundOK, withinLimit, exactWhenZero, exactOnAlternate, Bool.and_eq_true,
+    Bool.or_eq_true, bne_iff_ne, ne_eq, beq_iff_eq]
+  refine ⟨⟨?_, ?_⟩, ?_⟩
+  · cases hL : v.terminal.scrollbackLimit with
+    | none => rfl
+    | some L => simpa using (h1 L hL).1
+  · by_cases hL : v.terminal.scrollbackLimit = some 0
+    · exact .inr ((h1 0 hL).2 rfl)
+    · exact .inl hL
+  · by_cases ha : v.terminal.activeBufferType = .alternate
+    · exact .inr (h2 ha)
+    · exact .inl ha
+
+/-- after `feed_str` (its `Changes` consumed or dropped: the same state) -/
+theorem C13_feedStr (hR : ResizeOK) (hP : ParserOK) {v v' : Vt} {ch : Changes} {s : List Nat}
+    (h : Inv v = true) (hs : v.feedStr s = some (v', ch)) : boundOK v' = true := by
+  obtain ⟨v1, ch1, h1, h2, h3, _⟩ := Vt.feedStr_ok hR hP s h
+  rw [hs] at h1; cases h1
+  exact C13_boundOK h2 h3
+
+/-- after `resize` -/
+theorem C13_resize (hR : ResizeOK) {v v' : Vt} {ch : Changes} {c r : Nat} (h : Inv v = true)
+    (hc : 1 ≤ c) (hr : 1 ≤ r) (hs : v.resize c r = some (v', ch)) : boundOK v' = true := by
+  obtain ⟨v1, ch1, h1, h2, h3, _⟩ := Vt.resize_ok hR h hc hr
+  rw [hs] at h1; cases h1
+  exact C13_boundOK h2 h3
+
+/-- after every finishing public call from every reachable state -/
+theorem C13_reach (hR : ResizeOK) (hP : ParserOK) {v v' : Vt} {op : PubOp} (h : Reach v)
+    (hv : op.valid) (hf : op.finishes = true) (hs : step v op = some v') :
+    boundOK v' = true
+      ∧ (∀ L, v'.terminal.scrollbackLimit = some L →
+          v'.lines.length ≤ v'.terminal.rows + L + L / 10 ∧ (L = 0 → v'.lines.length = v'.terminal.rows))
+      ∧ (v'.terminal.activeBufferType = .alternate → v'.lines.length = v'.terminal.rows) := by
+  have hi := reach_inv hR hP h
+  obtain ⟨v1, h1, h2⟩ := step_ok hR hP op hi hv
+  rw [hs] at h1; cases h1
+  have h3 := step_trimmed hR hP hi hv hf hs
+  exact ⟨C13_boundOK h2 h3, C13_bound h2 h3⟩
+
+/-- a fresh terminal is within the bound -/
+theorem C13_init {cols rows : Nat} (lim : Option Nat) (hc : 1 ≤ cols) (hr : 1 ≤ rows) :
+    ∃ v, Vt.new cols rows lim = some v ∧ boundOK v = true := by
+  obtain ⟨v, h1, h2⟩ := Vt.new_ok lim hc hr
+  refine ⟨v, h1, C13_boundOK h2 ?_⟩
+  simp only [Vt.new, Terminal.new] at h1
+  cases hcs : csub rows 1 <;> simp [hcs] at h1
+  subst h1; rfl
+
+end Avt.Props.C13
